@@ -137,6 +137,25 @@ theorem arbo_relabel {edges : List Edge} {r : Nat} (f : Nat → Nat) (hf : ∀ a
     obtain ⟨e, he, rfl⟩ := mem e' he'
     exact reach _ (A.reach e he)
 
+/-- The property's quantifier in ONE statement — "however its nodes are numbered and its edges are
+    listed": take any arborescence, renumber its nodes by any injective map, write the edges down in
+    any order; the order exists (no raise), contains every edge exactly once and is parent-first
+    with respect to the renumbered root. -/
+theorem toposort_any_numbering_any_listing {edges edges' : List Edge} {r : Nat}
+    (f : Nat → Nat) (hf : ∀ a b, f a = f b → a = b) (A : Arbo edges r) (hne : edges ≠ [])
+    (p : edges'.Perm (relabel f edges)) :
+    ∃ l, toposort edges' = some l ∧ l.Perm (List.range edges'.length) ∧
+      ∀ (i : Nat) (_ : i < l.length), ∃ (hlt : l[i] < edges'.length), (edges'[l[i]]).1 = f r ∨
+        ∃ (j : Nat) (_ : j < i) (hjl : l[j] < edges'.length), (edges'[l[j]]).2 = (edges'[l[i]]).1 := by
+  have A' : Arbo edges' (f r) := arbo_perm (arbo_relabel f hf A) p
+  have hne' : edges' ≠ [] := by
+    intro h; subst h
+    have := p.length_eq
+    simp only [relabel, List.length_nil, List.length_map] at this
+    exact hne (List.length_eq_zero_iff.mp this.symm)
+  obtain ⟨l, hl, hp⟩ := toposort_perm A' hne'
+  exact ⟨l, hl, hp, fun i hi => toposort_parent_first A' l hl i hi⟩
+
 /-- non-vacuity: the suite's skeleton renumbered by n ↦ 2n+3 (injective) -/
 example : toposort (relabel (fun n => 2 * n + 3) [(2,3),(0,1),(1,2),(1,4)]) = some [1,2,3,0] := by
   rw [toposort_relabel _ (by intro a b h; omega)]; decide
